@@ -29,6 +29,15 @@ class _Break(Exception):
     pass
 
 
+class InterpRaised(Exception):
+    """The interpreted code executed a `raise` statement."""
+
+    def __init__(self, exc_name: str, text: str):
+        super().__init__(f"{exc_name}: {text}")
+        self.exc_name = exc_name
+        self.text = text
+
+
 class _Continue(Exception):
     pass
 
@@ -48,6 +57,7 @@ BUILTINS: Dict[str, Any] = {
     "len": len, "range": range, "sorted": sorted, "list": list, "set": set, "tuple": tuple, "dict": dict, "max": max, "min": min,
     "sum": sum, "enumerate": enumerate, "zip": zip, "str": str, "int": int, "float": float, "abs": abs, "any": any, "all": all,
     "bool": bool, "reversed": reversed, "frozenset": frozenset, "True": True, "False": False, "None": None, "isinstance": isinstance,
+    "iter": iter, "next": next, "slice": slice,
 }
 MODULES = {"itertools": {"product": itertools.product, "combinations": itertools.combinations, "chain": itertools.chain, "permutations": itertools.permutations}}
 _BIN = {ast.Add: operator.add, ast.Sub: operator.sub, ast.Mult: operator.mul, ast.Div: operator.truediv, ast.FloorDiv: operator.floordiv,
@@ -178,6 +188,10 @@ class Interp:
             raise _Continue()
         elif isinstance(s, ast.Pass):
             return
+        elif isinstance(s, ast.Raise):
+            exc = s.exc
+            name = unparse(exc.func) if isinstance(exc, ast.Call) else (unparse(exc) if exc is not None else "re-raise")
+            raise InterpRaised(name, unparse(exc)[:120] if exc is not None else "")
         else:
             raise Unsupported(f"statement {type(s).__name__}: {unparse(s)[:60]}")
 
